@@ -99,6 +99,12 @@ impl Case {
                     let dom = |q: [f32; 3]| -> bool { q.iter().all(|x| x.is_finite() && *x >= -0.5 && *x <= 2.0) };
                     correlate_px(&mut px, *seed, Some(&fb), &dom);
                 }
+                if seed % 4 == 1 {
+                    let (p, to) = (self.p, self.to_709);
+                    let fb = move |q: [f32; 3]| -> Option<[f32; 3]> { lib_convert(p, to, &[q], 1, 1).ok().map(|o| o[0]) };
+                    let dom = |q: [f32; 3]| -> bool { q.iter().all(|x| x.is_finite() && *x >= -0.5 && *x <= 2.0) };
+                    correlate_rows(&mut px, self.w, self.h, *seed, &fb, &dom);
+                }
                 px
             }
             Px::Explicit(v) => v.clone(),
